@@ -8,7 +8,7 @@ from lib.facts import callee, callee_def, op_local
 META = {
     "level": "other",
     "technique": "static analysis: table extraction from MIR switch terminators (token kind -> operator kind -> typing arm) compared with Gleam's operator typing and with the parser's binding-power table",
-    "rule": "Y4 the inferencer's resolver is swapped only by save-and-restore on every path; Y3 freezing a type variable restores its table entry on every path; Y2 the call graph that forms the inference groups resolves a variable with an expression-level resolver (a local binder named "
+    "rule": "Y12 every child expression, pattern and statement of every Expr / Pattern / Statement variant reaches a function that gives it a type (visitor completeness of the inferencer, the analysis of C05 S1); Y13 = C10 Q14 (the memo of infer_expr is filled by the inference of that expression only: an entry made elsewhere ends the inference of the expression before it began). Y4 the inferencer's resolver is swapped only by save-and-restore on every path; Y3 freezing a type variable restores its table entry on every path; Y2 the call graph that forms the inference groups resolves a variable with an expression-level resolver (a local binder named "
             "like a top-level function is not a call edge); Y1 every binary operator the parser accepts (infix_bp != None, except |>) has an operator kind in BinaryOp::op_details, "
             "and that kind reaches an arm of the inferencer that unifies the operands with each other and with the operand type Gleam "
             "prescribes, and yields Gleam's result type (Int/Float arithmetic, Int/Float comparison -> Bool, equality -> Bool, "
@@ -288,6 +288,10 @@ def run(F, res, tier):
     naming_state_is_per_function(F, res)
     declared_types_are_read_in_their_own_module(F, res)
     scratch_stacks_are_balanced(F, res)
+    every_child_is_inferred(F, res)
+    literal_tables(F, res)
+    from rules import c10 as _c10
+    _c10.inference_is_memoised(F, res, rule="Y13")
 
 
 def resolver_swaps(F, res, rule="Y4"):
@@ -724,3 +728,98 @@ def scratch_stacks_are_balanced(F, res, rule="Y11"):
                        "what is entered into InferCtx.%s here is taken out again on every path to return (the entry means: in progress)" % fld,
                        not leak, where=f.loc(e["ln"]), how="removing calls on the field in this function: %d; a return is reachable without one: %s" % (len(outs), leak))
     res.floor("entries into scratch collections of InferCtx", n, 1)
+
+
+def every_child_is_inferred(F, res, rule="Y12"):
+    """Y12: the inferencer reaches every child. For every variant of Expr, Pattern and Statement that has child expressions,
+    patterns or statements, the arm of infer_expr_inner / infer_pattern / infer_stmts_iter hands every such child (through refs,
+    iteration, closures) to a function that gives it a type: infer_expr, infer_pattern, infer_stmts, or the allocator of a
+    pattern's type variable (lambda parameters). A child that is not reached keeps no entry in the side tables: hover shows
+    nothing for it and every variable bound or used inside it stays untyped. The same analysis as C05 S1 (scopes), applied to
+    the second walk over the body."""
+    from rules import c05
+    V = (IC + "infer_expr", IC + "infer_pattern", IC + "infer_stmts", IC + "infer_stmts_iter", IC + "infer_expr_inner", IC + "ty_for_pattern")
+    skips = {k: v for k, v in c05.REVIEWED_SKIPS.items()}
+    for fn_name, adt, fl in (("infer_expr_inner", "Expr", 10), ("infer_pattern", "Pattern", 5), ("infer_stmts_iter", "Statement", 3)):
+        if IC + fn_name not in F.fns:
+            res.anchor_missing(rule, IC + fn_name)
+            continue
+        c05.visitor_completeness(F, res, fn_name, adt, rule=rule, fn_path=IC + fn_name, visits=V, skips=skips, what="infers", floor=fl, selections=False)
+
+
+def _switch_table(F, fn, key_adt=None, key_ty=None, result_adt=None):
+    """[(block, {key variant or number: sorted result variants})] for every switch of fn on a discriminant of key_adt (or on a value
+    of integer type key_ty): the variants of result_adt built in blocks only that target reaches"""
+    d = FL.Defs(fn)
+    out = []
+    for b in sorted(fn.reachable()):
+        t = fn.term(b)
+        if t["k"] != "switch":
+            continue
+        l = op_local(t["op"])
+        o = d.origin(l) if l is not None else {}
+        if key_adt is not None:
+            if not (o.get("k") == "rv" and o["rv"]["k"] == "discr" and o["rv"].get("of") == key_adt):
+                continue
+            names = F.discr_map(key_adt)
+        else:
+            if t.get("ty") != key_ty:
+                continue
+            names = F.discr_map(SK) if key_ty == "u16" else {}
+        tg = {int(v): x for v, x in t["targets"]}
+        reach = {}
+        for x in set(tg.values()) | {t["otherwise"]}:
+            seen, st = {x}, [x]
+            while st:
+                y = st.pop()
+                for z in fn.succ(y):
+                    if z not in seen:
+                        seen.add(z)
+                        st.append(z)
+            reach[x] = seen
+        table = {}
+        for v, x in tg.items():
+            others = set().union(*[reach[y] for y in reach if y != x]) if len(reach) > 1 else set()
+            own = reach[x] - others
+            got = set()
+            for bb in own:
+                for s_ in fn.blocks[bb]["stmts"]:
+                    rv = s_.get("rv") or {}
+                    if rv.get("k") == "agg" and rv.get("adt") == result_adt:
+                        got.add(rv["variant"])
+            table[names.get(v, v)] = sorted(got)
+        out.append((b, table))
+    return out
+
+
+def literal_tables(F, res, rule="Y14"):
+    """Y14: a literal has the type of its kind. Three tables are read off the switches and chained: the token kind of a LITERAL node ->
+    LiteralKind (ast::Literal::kind), LiteralKind -> Ty in infer_expr_inner, LiteralKind -> Ty in infer_pattern. Oracle: Gleam
+    (INTEGER is Int, FLOAT is Float, STRING is String). A swapped or merged pair types every such literal wrongly and compiles."""
+    LK, TY = "syntax::ast::LiteralKind", "ide::ty::infer::Ty"
+    want_tok = {"INTEGER": ["Int"], "FLOAT": ["Float"], "STRING": ["String"]}
+    want_ty = {"Int": ["Int"], "Float": ["Float"], "String": ["String"]}
+    kf = [f for p_, f in sorted(F.fns.items()) if p_.startswith("syntax::ast::") and p_.endswith("Literal::kind") and f.blocks]
+    kf += [F.fns[p_] for p_ in sorted(F.fns) if p_.startswith("syntax::ast::") and "Literal::kind::{closure" in p_ and F.fns[p_].blocks]
+    tok = None
+    for f in kf:
+        for b, table in _switch_table(F, f, key_ty="u16", result_adt=LK):
+            if any(table.get(k) for k in want_tok):
+                tok = (f, table)
+    if tok is None:
+        res.anchor_missing(rule, "the switch on the token kind in ast::Literal::kind")
+    else:
+        f, table = tok
+        bad = {k: table.get(k) for k in want_tok if table.get(k) != want_tok[k]}
+        extra = {k: v for k, v in table.items() if v and k not in want_tok}
+        res.ob(rule, "literal/token-kind", "ast::Literal::kind maps INTEGER, FLOAT and STRING tokens to the literal kind of the same name and nothing else to any",
+               not bad and not extra, where=f.loc(), how="table %s" % {k: v for k, v in table.items() if v} if not bad and not extra else "wrong: %s %s" % (bad, extra))
+    for fname in ("infer_expr_inner", "infer_pattern"):
+        f = F.fns.get(IC + fname)
+        if f is None:
+            res.anchor_missing(rule, IC + fname)
+            continue
+        tabs = [t_ for b, t_ in _switch_table(F, f, key_adt=LK, result_adt=TY) if any(t_.values())]
+        ok = bool(tabs) and all(t_.get(k) == want_ty[k] for t_ in tabs for k in want_ty)
+        res.ob(rule, "literal/%s" % fname, "%s gives a literal of kind Int / Float / String the type of the same name" % fname, ok, where=f.loc(),
+               how="tables %s" % tabs)
